@@ -534,6 +534,13 @@ M('M17b', 'FFI status enum reordered (mapping by name kept)', ['C17', 'C06'],
 M('M17c', 'FFI errno widened to i64', ['C17'],
   [(FFI, '    pub errno: i32,', '    pub errno: i64,'), (FFI, '            ShmError::SyscallError(errno, _) => errno.0,', '            ShmError::SyscallError(errno, _) => errno.0 as i64,')],
   {'C17': ['C17.Y3']})
+M('M17o', 'C open reports every failure as an empty error record', ['C17'],
+  [(FFI, '                err.write(e.into())', '                let _ = e;\n                err.write(Default::default())')], {'C17': ['C17.Y9']})
+M('M17p', 'C close forgets the context instead of freeing it', ['C17'],
+  [(FFI, '    std::mem::drop(Box::from_raw(ctx));', '    std::mem::forget(Box::from_raw(ctx));')], {'C17': ['C17.Y9']})
+M('M17q', 'Rust client opens the default path whatever path it was given', ['C17'],
+  [(CLIENT, '        let shm_path = CString::new(shm_path).expect("CString::new failed");',
+    '        let _ = shm_path;\n        let shm_path = CString::new(CLOCKBOUND_SHM_DEFAULT_PATH).expect("CString::new failed");')], {'C17': ['C17.Y9']})
 M('M17d', 'record loses repr(C)', ['C17'],
   [(SHM_LIB, '#[repr(C)]\n#[derive(Debug, Copy, Clone, PartialEq)]\npub struct ClockErrorBound {', '#[derive(Debug, Copy, Clone, PartialEq)]\npub struct ClockErrorBound {')], {'C17': ['C17.Y1']})
 M('M17e', 'daemon writes to a different default path', ['C17', 'C01'],
